@@ -230,7 +230,9 @@ def hooks_present():
 def doc_text(c, flags=()):
     """content id c: namespace urn:c<c>, one object n<c>.  flags: not_wf, bad_header, bad_body"""
     alias = "garbage-no-equals" if "bad_header" in flags else "i=47"
-    nid = "ns=7;i=%d" % (1000 + c) if "bad_body" in flags else "ns=1;i=%d" % (1000 + c)
+    # the NodeId texts are the same in every document (what differs is the namespace they denote and the names),
+    # so that anything keyed by the text alone across calls shows
+    nid = "ns=7;i=1000" if "bad_body" in flags else "ns=1;i=1000"
     t = ('<?xml version="1.0" encoding="utf-8"?>\n<UANodeSet xmlns="http://opcfoundation.org/UA/2011/03/UANodeSet.xsd">'
          '<NamespaceUris><Uri>urn:c%d</Uri></NamespaceUris>'
          '<Models><Model ModelUri="urn:c%d" Version="1.%d" PublicationDate="2020-01-01T00:00:00Z">'
@@ -240,7 +242,7 @@ def doc_text(c, flags=()):
          '<Reference ReferenceType="HasComponent" IsForward="false">i=85</Reference></References></UAObject>'
          '<UAVariable NodeId="ns=1;i=%d" BrowseName="1:v%d" DataType="i=6"><DisplayName>v%d</DisplayName><References/>'
          '<Value><Int32 xmlns="http://opcfoundation.org/UA/2008/02/Types.xsd">%d</Int32></Value></UAVariable>'
-         '</UANodeSet>\n') % (c, c, c, alias, nid, c, c, 5000 + c, c, c, c)
+         '</UANodeSet>\n') % (c, c, c, alias, nid, c, c, 5000, c, c, c)
     if "not_wf" in flags:
         t = t[: len(t) // 2]
     return t
